@@ -93,3 +93,19 @@ Definition param_formal_ok (cname : string) (keys : list string) (x : string) : 
 Definition param_row_ok (row : string * list string * list (string * list string)) : bool :=
   let '(cname, keys, meths) := row in
   forallb (fun m => forallb (param_formal_ok cname keys) (snd m)) meths.
+
+(* ---- C06: the mask side never reads an image fill value, the image side never a mask fill value ----
+   rows: (class, method, parameter key or "", attributes of self read).  The mask side is apply_to_mask and every
+   sampled parameter whose key names the mask; everything else is the image side. *)
+Definition image_fills : list string := ["value"; "fill_value"; "pad_cval"; "drop_value"; "cval"].
+Definition mask_fills : list string := ["mask_value"; "mask_fill_value"; "pad_cval_mask"; "mask_drop_value"; "cval_mask"].
+Fixpoint has_sub (sub s : string) : bool :=
+  match s with
+  | EmptyString => String.eqb sub EmptyString
+  | String _ tl => String.prefix sub s || has_sub sub tl
+  end.
+Definition fill_row_ok (row : string * string * string * list string) : bool :=
+  let '(cname, meth, key, reads) := row in
+  if String.eqb meth "apply_to_mask" || has_sub "mask" key
+  then forallb (fun a => negb (mem a image_fills)) reads
+  else forallb (fun a => negb (mem a mask_fills)) reads.
